@@ -444,7 +444,8 @@ func c04Typestate(c *Ctx, r *Report) {
 // ---- R4 ---------------------------------------------------------------------------
 
 type guardEdge struct {
-	blk  *ssa.BasicBlock // successor that must dominate
+	from *ssa.BasicBlock // the edge from -> blk is taken only with the guard's fact true
+	blk  *ssa.BasicBlock
 	what string
 }
 
@@ -483,9 +484,7 @@ func zeroResidueEdges(fn *ssa.Function) []guardEdge {
 		if bo.Op == token.EQL {
 			succ = b.Succs[0]
 		}
-		if len(succ.Preds) == 1 {
-			out = append(out, guardEdge{succ, "zero residue of " + pathOf(cc.Value)})
-		}
+		out = append(out, guardEdge{b, succ, "zero residue of " + pathOf(cc.Value)})
 	}
 	return out
 }
@@ -529,9 +528,7 @@ func eqConstEdges(c *Ctx, fn *ssa.Function, pathSuffix string, want []int64, wha
 		if bo.Op == token.NEQ {
 			succ = b.Succs[1]
 		}
-		if len(succ.Preds) == 1 {
-			out = append(out, guardEdge{succ, what})
-		}
+		out = append(out, guardEdge{b, succ, what})
 	}
 	return out
 }
@@ -551,8 +548,8 @@ func paramTrueEdges(fn *ssa.Function, names ...string) []guardEdge {
 			continue
 		}
 		for _, n := range names {
-			if p.Name() == n && len(b.Succs[0].Preds) == 1 {
-				out = append(out, guardEdge{b.Succs[0], "mode " + n})
+			if p.Name() == n && b.Succs[0] != b.Succs[1] {
+				out = append(out, guardEdge{b, b.Succs[0], "mode " + n})
 			}
 		}
 	}
@@ -577,16 +574,50 @@ func c04Verdicts(c *Ctx, r *Report) {
 				r.ok("C04-R4-verdict-dominance", key, c.pos(ret.Pos()), "returns the verdict of "+tailCallOK)
 				continue
 			}
+			// every path from the entry to this return takes one of the guard edges: with those edges cut
+			// the return is unreachable (a return behind `a || b`, or after `a && b` failed, has no single
+			// dominating edge)
 			found := ""
-			for _, g := range ge {
-				if g.blk.Dominates(ret.Block()) {
-					found = g.what
+			{
+				cut := map[[2]*ssa.BasicBlock]string{}
+				for _, g := range ge {
+					if g.from.Succs[0] != g.from.Succs[1] {
+						cut[[2]*ssa.BasicBlock{g.from, g.blk}] = g.what
+					}
+				}
+				seen := map[*ssa.BasicBlock]bool{fn.Blocks[0]: true}
+				q := []*ssa.BasicBlock{fn.Blocks[0]}
+				used := map[string]bool{}
+				for len(q) > 0 {
+					b := q[0]
+					q = q[1:]
+					for _, s := range b.Succs {
+						if w, isCut := cut[[2]*ssa.BasicBlock{b, s}]; isCut {
+							used[w] = true
+							continue
+						}
+						if !seen[s] {
+							seen[s] = true
+							q = append(q, s)
+						}
+					}
+				}
+				if !seen[ret.Block()] {
+					var ws []string
+					for w := range used {
+						ws = append(ws, w)
+					}
+					sort.Strings(ws)
+					found = strings.Join(ws, " | ")
+					if found == "" {
+						found = "unreachable"
+					}
 				}
 			}
 			if found == "" {
 				r.fail("C04-R4-verdict-dominance", key, c.pos(ret.Pos()), fmt.Sprintf("%s can return success here without passing a zero-residue test or a documented exemption: corrupted input would be accepted", fname))
 			} else {
-				r.ok("C04-R4-verdict-dominance", key, c.pos(ret.Pos()), "dominated by: "+found)
+				r.ok("C04-R4-verdict-dominance", key, c.pos(ret.Pos()), "every path here passes: "+found)
 			}
 		}
 		if i == 0 {
